@@ -93,6 +93,26 @@ pub mod greedy_dot_hidden {
         X,
     }
 }
+pub mod empty_callback {
+    //! `callback = ` without a value cannot be implemented: it must be a diagnostic, not an empty label
+    use logos::Logos;
+    #[derive(Logos)]
+    pub enum A {
+        #[regex("a", callback = )]
+        X,
+    }
+    #[derive(Logos)]
+    #[logos(skip("[ ]+", callback = ))]
+    pub enum B {
+        #[token("a")]
+        X,
+    }
+    #[derive(Logos)]
+    pub enum C {
+        #[token("a", callback = )]
+        X,
+    }
+}
 pub mod undefined_subpattern {
     use logos::Logos;
     #[derive(Logos)]
